@@ -52,6 +52,8 @@ def _keys(pid, repo):
 
 def _one(args):
     pid, m, base_keys = args
+    os.environ["VERIF_SELFTEST"] = "1"  # the batteries use a reduced family and few workers per variant
+    os.environ.setdefault("VERIF_JOBS", "2")
     tmp = tempfile.mkdtemp(prefix="symmray-verif-variant-")
     try:
         files = {}
